@@ -19,7 +19,7 @@ import (
 )
 
 func TestMain(m *testing.M) {
-	vh.Rule("rapid histories (race-detector build) in which the harness owns the interesting interleavings through the scripted transport: (1) receive with a cancelled own or connection context - cancelled before or during NextPackage / NextPackageUntil (also with a callback that fails in the middle of a response whose rest never arrives), with 0..capacity+k packages sent, consumer having taken j of them, packets still arriving or not; (2) SendPackage / QueuePackage with an already cancelled own or connection context (1..4 packets); (3) Close of channel 0 or of a logical channel in a generated state: receive queue empty / partly filled / full with the reader parked on it (response abandoned after j packages, capacity c, j+c < n), a consumer blocked in NextPackage, a SendPackage parked in the transport's Write, peer answering the logout at once / late / never (60 s, thorough only), followed by every call on the closed channel incl. a second Close and by packets for its id; (4) Conn.Close with 1..4 channels in such states, with the connection error queue empty or full (transport failing), also after the context the connection was created with has been cancelled. Watchdog oracle: a cancelled receive returns within 1 s with a queued package or an error that errors.Is the context error; a cancelled send writes zero bytes; Close returns within 5 s (65 s for the silent peer), never panics; after Close every call satisfies errors.Is(err, ErrChannelClosed) and delivers nothing; Conn.Close leaves every channel closed, the transport closed and the reader ended within 2 s. Non-trivial: the cancel/close overlaps an operation in flight or the queue was at or beyond capacity; distinct by the history")
+	vh.Rule("rapid histories (race-detector build) in which the harness owns the interesting interleavings through the scripted transport: (1) receive with a cancelled own or connection context - cancelled before or during NextPackage / NextPackageUntil (also with a callback that fails in the middle of a response whose rest never arrives), with 0..capacity+k packages sent, consumer having taken j of them, packets still arriving or not; (2) SendPackage / QueuePackage with an already cancelled own or connection context (1..4 packets); (3) Close of channel 0 or of a logical channel in a generated state: receive queue empty / partly filled / full with the reader parked on it (response abandoned after j packages, capacity c, j+c < n), a consumer blocked in NextPackage, a SendPackage parked in the transport's Write, a header-only control packet queued behind the data, the connection's parent context already cancelled, peer answering the logout at once / late / never (60 s, thorough only), followed by every call on the closed channel incl. a second Close and by packets for its id; (4) Conn.Close with 1..4 channels in such states, with the connection error queue empty or full (transport failing), also after the context the connection was created with has been cancelled. Watchdog oracle: a cancelled receive returns within 1 s with a queued package or an error that errors.Is the context error; a cancelled send writes zero bytes; Close returns within 5 s (65 s for the silent peer), never panics; after Close every call satisfies errors.Is(err, ErrChannelClosed) and delivers nothing; Conn.Close leaves every channel closed, the transport closed and the reader ended within 2 s. Non-trivial: the cancel/close overlaps an operation in flight or the queue was at or beyond capacity; distinct by the history")
 	vh.Assume("'promptly' and 'bounded' are wall-clock bounds with slack (1 s / 5 s; a correct tree needs microseconds); schedules are sampled; one consumer per channel apart from the deliberately blocked one")
 	vh.Main(m, "C13")
 }
@@ -48,6 +48,9 @@ type c13Case struct {
 	// ParentCancelled: (connclose) the context passed when the connection was created is
 	// cancelled before Conn.Close is called - the usual deferred cleanup after a timeout
 	ParentCancelled bool `json:"parent_context_cancelled_first"`
+	// Control: (close) after the data packets a header-only control packet (PROTACK) for the
+	// channel arrives - it goes straight into the package queue
+	Control bool `json:"control_packet_arrives"`
 }
 
 // env is one connection with its peer.
@@ -457,6 +460,10 @@ func runClose(c c13Case) *vh.Failure {
 			return vh.Failf("C13/receive", "%v: NextPackage %d: %v", c, i, err)
 		}
 	}
+	if c.Control {
+		e.pipe.Feed(rc.Packet{Type: rc.BufProtAck, Channel: uint16(id), Status: rc.StatEOM}.Bytes())
+		time.Sleep(200 * time.Microsecond)
+	}
 	// drain the queue completely if the consumer took everything, so a logout answer can be seen
 	readerParked := c.Sent-c.Consumed > c.Cap
 	var wg sync.WaitGroup
@@ -500,6 +507,10 @@ func runClose(c c13Case) *vh.Failure {
 	if c.Peer == "never" && !c.Logical {
 		bound = 65 * time.Second
 	}
+	if c.ParentCancelled {
+		// the usual deferred cleanup after the caller's context has ended
+		e.cancel()
+	}
 	var cerr error
 	ok, pan, took := timed(bound, func() { cerr = ch.Close() })
 	_ = cerr
@@ -536,8 +547,9 @@ func runClose(c c13Case) *vh.Failure {
 	if f := afterClose(c, e, ch, id); f != nil {
 		return f
 	}
-	// packets for the closed id are connection errors, nothing is delivered
-	if c.Logical {
+	// packets for the closed id are connection errors, nothing is delivered (with the
+	// connection's context cancelled the reader has ended: nothing is read at all)
+	if c.Logical && !c.ParentCancelled {
 		for e.conn.VerifConnErr() != nil {
 		}
 		e.sendPackages(id, 1000, 2, true)
@@ -572,6 +584,12 @@ func runClose(c c13Case) *vh.Failure {
 	}
 	if c.Parked {
 		vh.Label("close:send-parked")
+	}
+	if c.Control {
+		vh.Label("close:control-packet-queued")
+	}
+	if c.ParentCancelled {
+		vh.Label("close:parent-context-cancelled-first")
 	}
 	vh.Label("peer:" + c.Peer)
 	if readerParked || c.Parked || (c.Blocked && c.Sent <= c.Consumed) || c.Sent-c.Consumed >= c.Cap {
@@ -717,6 +735,13 @@ func genCase(rt *rapid.T, kind string) c13Case {
 		// bounded, but too slow for this tier (covered by TestSilentPeer in thorough)
 		c.Blocked = c.Logical && rapid.Bool().Draw(rt, "blocked")
 		c.Parked = c.Logical && rapid.IntRange(0, 2).Draw(rt, "parked") == 0
+		c.Control = rapid.IntRange(0, 2).Draw(rt, "control") == 0
+		if rapid.IntRange(0, 3).Draw(rt, "parentcancelled") == 0 {
+			// with the connection's context gone the logout / teardown fails fast; a send may
+			// still be parked in the transport
+			c.ParentCancelled = true
+			c.Parked = rapid.Bool().Draw(rt, "parked-main")
+		}
 	case "connclose":
 		c.NChan = rapid.IntRange(1, 4).Draw(rt, "channels")
 		c.Logical = false
